@@ -81,11 +81,24 @@ def hwm(r):
     return int(m.group(1)) if m else None
 
 
+_uniq_lock = threading.Lock()
+_uniq = [0]
+
+
 def trace_check(module, cfg, rows, d, tag="t", timeout=900):
     """Returns (accepted, failing_line_index_or_None, invariant_or_None, states, TLCResult)."""
-    p = os.path.join(d, "%s_%d_%d.ndjson" % (tag, int(time.time() * 1000) % 10**9, threading.get_ident() % 10**6))
+    import shutil
+    with _uniq_lock:
+        _uniq[0] += 1
+        n = _uniq[0]
+    p = os.path.join(d, "%s_%d.ndjson" % (tag, n))
     vlib.write_ndjson(p, rows)
-    r = vlib.tlc(module, cfg, env={"VERIF_TRACE": p}, workers=1, dfs=True, deadlock=False, timeout=timeout, heap="6g")
+    # vlib.tlc stages the config under a name derived from (module, pid, config name) and removes it afterwards:
+    # parallel calls with the same config would delete each other's copy -> every call gets its own config name
+    sc = vlib.spec_copy()
+    own = "%s.%d.cfg" % (cfg[:-4], n)
+    shutil.copyfile(os.path.join(sc, "cfg", cfg), os.path.join(sc, "cfg", own))
+    r = vlib.tlc(module, own, env={"VERIF_TRACE": p}, workers=1, dfs=True, deadlock=False, timeout=timeout, heap="6g")
     h = hwm(r)
     if r.violation and r.kind == "invariant":
         ln = int(r.trace_state.get("l", "0")) - 1      # the state AFTER consuming line l-1 violates it
@@ -245,7 +258,8 @@ def _alter_first(rows, pred, f):
 C20_CORRUPTIONS = [
     ("metadata token of one received scenario call altered",
      lambda run: run[0].get("kind") == "scn",
-     lambda rows: _alter_first(rows, lambda r_: r_["ev"] == "Recv" and r_["md"], lambda r_: r_["md"][0].__setitem__("tok", "x" + r_["md"][0]["tok"]))),
+     # (a call with a single templated value carries no second token to disagree with: needs >= 2)
+     lambda rows: _alter_first(rows, lambda r_: r_["ev"] == "Recv" and len(r_["md"]) >= 2, lambda r_: r_["md"][0].__setitem__("tok", "x" + r_["md"][0]["tok"]))),
     ("one received payload field dropped",
      lambda run: run[0].get("kind") == "json",
      lambda rows: _alter_first(rows, lambda r_: r_["ev"] == "Recv" and len(r_["fields"]) > 1, lambda r_: r_["fields"].pop())),
